@@ -14,3 +14,14 @@ func init() {
 }
 
 var profStop = func() {}
+
+func os_getenv_int(name string) int {
+	n := 0
+	for _, c := range os.Getenv(name) {
+		if c < '0' || c > '9' {
+			return 0
+		}
+		n = n*10 + int(c-'0')
+	}
+	return n
+}
